@@ -126,6 +126,25 @@ def run_proc(cmd, env, cwd, timeout, mem_gb):
 LIB_FRAME = "github.com/ipni/go-libipni/"
 
 
+def panicked_in_library(out):
+    """True when the goroutine that panicked (the first trace after the panic line) was running library code
+    and the panic is not the bubble's own deadlock report (which lists every goroutine)."""
+    m = re.search(r"^(panic: |fatal error: ).*$", out, re.M)
+    if not m or "deadlock" in m.group(0) or "test timed out" in m.group(0) or "VERIF-" in m.group(0):
+        return False
+    rest = out[m.end():]
+    g = re.search(r"^goroutine \d+ .*?:\n(.*?)(?:\n\n|\Z)", rest, re.M | re.S)
+    if not g:
+        return False
+    frames = [l for l in g.group(1).splitlines() if l and not l.startswith("\t")]
+    # skip runtime frames (panic machinery); the first non-runtime frame decides
+    for fr in frames:
+        if fr.startswith("runtime.") or fr.startswith("panic(") or fr.startswith("sync.") or fr.startswith("internal/"):
+            continue
+        return LIB_FRAME in fr
+    return False
+
+
 def save_replay(src, prop, unit, tag):
     os.makedirs(os.path.join(VERIF, "replays"), exist_ok=True)
     dst = os.path.join(VERIF, "replays", "%s-%s-%s.json" % (prop, unit, tag))
@@ -414,6 +433,7 @@ def check(prop, tier, seed, cfg, build, workdir, t0):
         return job, rc, out, wall
 
     frags = []
+    confirm = []
     with cf.ThreadPoolExecutor(max_workers=min(NCPU, max(1, len(jobs)))) as ex:
         results = list(ex.map(run_job, jobs))
     for (u, sh, shards, per, spec), rc, out, wall in results:
@@ -456,24 +476,38 @@ def check(prop, tier, seed, cfg, build, workdir, t0):
         noreturn = "VERIF-NORETURN:" in out
         crashed = (not hung) and (not noreturn) and ("panic:" in out or "fatal error:" in out or "SIGSEGV" in out)
         if (hung or crashed or noreturn) and os.path.exists(curp):
-            # confirm in fresh processes before reporting anything
+            # confirm in fresh processes before reporting anything (all confirmations run concurrently below)
             want = "hang" if hung else ("noreturn" if noreturn else "crash")
-            n_ok = 0
-            tries = 2
-            for _ in range(tries):
-                st, rout = replay_unit(build, prop, u, curp, workdir, timeout=spec.get("hang_timeout", 120))
-                if st == want or (want == "crash" and st == "fail"):
-                    n_ok += 1
-            if n_ok == tries and (hung or noreturn or LIB_FRAME in out):
+            confirm.append((u, sh, spec, out, curp, tag, want))
+            continue
+        log(out[-4000:])
+        inconclusive.append("%s shard %d: rc=%s without a failing case" % (u["test"], sh, rc))
+    # ---- confirmation of hangs / crashes / calls that never returned
+    def run_confirm(task):
+        u, sh, spec, out, curp, tag, want = task
+        n_ok, tries = 0, 2
+        for _ in range(tries):
+            st, rout = replay_unit(build, prop, u, curp, workdir, timeout=spec.get("hang_timeout", 90))
+            if st == want or (want == "crash" and st == "fail"):
+                n_ok += 1
+        return task, n_ok, tries
+
+    if confirm:
+        with cf.ThreadPoolExecutor(max_workers=min(NCPU, len(confirm))) as ex:
+            confirmed = list(ex.map(run_confirm, confirm))
+        for (u, sh, spec, out, curp, tag, want), n_ok, tries in confirmed:
+            lib_panic = want == "crash" and panicked_in_library(out)
+            if (n_ok == tries and want in ("hang", "noreturn")) or lib_panic:
+                # a panic raised inside the library is a violation even when the schedule that produced it does
+                # not repeat: the saved case plus the trace below is then the reproduction material
                 dst = save_replay(curp, prop, u["test"], tag + "-" + want)
-                log("---- %s shard %d: %s confirmed %d/%d\n%s" % (u["test"], sh, want, n_ok, tries, out[-4000:]))
+                if lib_panic:
+                    open(dst + ".trace.txt", "w").write(out[-30000:])
+                log("---- %s shard %d: %s, reproduced %d/%d\n%s" % (u["test"], sh, want, n_ok, tries, out[-4000:]))
                 violations.append(dst)
             else:
                 log(out[-4000:])
                 inconclusive.append("%s shard %d: %s not confirmed (%d/%d)" % (u["test"], sh, want, n_ok, tries))
-            continue
-        log(out[-4000:])
-        inconclusive.append("%s shard %d: rc=%s without a failing case" % (u["test"], sh, rc))
     # ---- native fuzzing (thorough tier only)
     extra = {"regressions_replayed": regress_run}
     if tier == "thorough":
